@@ -106,6 +106,13 @@ package internal
 //@   ensures result != nil
 //@   modifies nothing
 
+// AdaptType parses its argument with math/big (outside the proof): it writes nothing and returns a non-nil int, float64 or
+// string, named adapt(s) in the contracts of the handlers that store it (assumed; evident from its three return statements).
+//@ ufun adapt(s string) any
+//@ func AdaptType trusted props C14,C01
+//@   ensures result == adapt(s) && result != nil && (isint(result) || isfloat(result) || isstr(result))
+//@   modifies nothing
+
 // ---- command parsing helpers used by dispatch (frame-only, assumed: they parse and look up, they write nothing) -----
 //@ func Decode trusted props C07
 //@   modifies nothing
